@@ -56,14 +56,24 @@ class SpecTask(Task):
         if self.data.get("delay"):
             import time, zlib
             time.sleep((zlib.crc32(repr(x).encode()) % 7) * self.data["delay"])
+        if self.data["obj"] == "decoded-tour":
+            # the objective works on the DECODED solution (labels), as the library's own TSP example does: sum of label distances along the tour
+            out = 0.0
+            for v in self.transform_solution(x).values():
+                if isinstance(v, (list, tuple, np.ndarray)) and len(v) and isinstance(v[0], str):
+                    ks = [int(s_[1:]) for s_ in v]
+                    out += float(sum(abs(a - b) * (i + 1) for i, (a, b) in enumerate(zip(ks, ks[1:]))))
+                else:
+                    out += float(np.sum(np.abs(np.array(_flat([v]) if not isinstance(v, (list, tuple, np.ndarray)) else _flat(v), dtype=float))))
+            return out
         val = objective_value(self.data["obj"], x)
         return val
 
 
-def build_vars(vspecs):
+def build_vars(vspecs, names=None):
     vs = []
     for i, (k, s) in enumerate(vspecs):
-        n = f"v{i}"
+        n = names[i] if names else f"v{i}"
         if k == "cont": vs.append(ContinuousVariable(name=n, lower_bound=s[0], upper_bound=s[1]))
         elif k == "contmulti": vs.append(ContinuousMultiVariable(name=n, lower_bounds=list(s[0]), upper_bounds=list(s[1])))
         elif k == "multiobj": vs.append(MultiObjectiveVariable(name=n, lower_bounds=list(s[0]), upper_bounds=list(s[1])))
@@ -71,6 +81,7 @@ def build_vars(vspecs):
         elif k == "discmulti": vs.append(DiscreteMultiVariable(name=n, choices=[list(range(m)) for m in s]))
         elif k == "binary": vs.append(BinaryVariable(name=n, n_vars=s))
         elif k == "perm": vs.append(PermutationVariable(name=n, items=list(range(s))))
+        elif k == "permstr": vs.append(PermutationVariable(name=n, items=[f"c{j:02d}" for j in range(s)]))      # string labels
         else: raise ValueError(k)
     return vs
 
@@ -80,7 +91,7 @@ def build_task(t: dict, record: str | None = None):
     kw = {}
     if t.get("weights") is not None: kw["objective_weights"] = t["weights"]
     if t.get("seed") is not None: kw["seed"] = t["seed"]
-    return SpecTask(variables=build_vars(t["vars"]), minmax=t.get("minmax", "min"), data=data, **kw)
+    return SpecTask(variables=build_vars(t["vars"], t.get("names")), minmax=t.get("minmax", "min"), data=data, **kw)
 
 
 def cont_task(dim=3, lo=-10.0, hi=10.0, obj="sphere", minmax="min", seed=None, **kw):
@@ -164,6 +175,12 @@ def run_job(job: dict) -> dict:
                     full = dict(entry["kwargs"]); full.update(t0["cfg"]); o.set_config_parameters(full)
             if job.get("first_cfg") is not None:
                 full = dict(entry["kwargs"]); full.update(job.get("cfg", {})); o.set_config_parameters(full); cfg = o.configuration
+            if job.get("retask_vars"):
+                # the task object has been used before (by another optimizer instance) and its variables are then replaced: the run must see the NEW search space
+                cls(cfg).optimize(task)
+                task.variables = build_vars(job["retask_vars"], job["task"].get("names"))
+                if rec:
+                    for f_ in glob.glob(rec + ".*"): os.unlink(f_)
             if snaps is not None: del snaps[:]                # snapshots of earlier runs on this instance do not count
             res = o.optimize(task, **kw)
         if job.get("privates"):
@@ -201,12 +218,28 @@ def run_job(job: dict) -> dict:
     return obs
 
 
+def run_job_any(job: dict) -> dict:
+    """run_job here, or - when the job carries "hashseed" - in a fresh interpreter started with that PYTHONHASHSEED"""
+    if "hashseed" not in job:
+        return run_job(job)
+    import json as _json, subprocess, sys
+    env = dict(os.environ); env["PYTHONHASHSEED"] = str(job["hashseed"])
+    j2 = {k: v for k, v in job.items() if k != "hashseed"}
+    try:
+        r = subprocess.run([sys.executable, "-m", "pv.runjob"], input=_json.dumps(j2), capture_output=True, text=True, env=env, timeout=600)
+        obs = _json.loads(r.stdout.split("@@OBS@@")[-1])
+        obs["job"] = job
+        return obs
+    except Exception as e:
+        return {"job": job, "ok": False, "error": {"type": type(e).__name__, "where": "harness", "msg": str(e)[:200]}}
+
+
 def run_jobs(jobs: list[dict], procs: int = 14) -> list[dict]:
     if not jobs:
         return []
     # jobs that themselves use process pools are fine inside pool workers (fork); keep the pool modest
     with ProcessPoolExecutor(max_workers=min(procs, len(jobs))) as ex:
-        return list(ex.map(run_job, jobs, chunksize=1))
+        return list(ex.map(run_job_any, jobs, chunksize=1))
 
 
 def fixture_scale(name: str) -> dict:
